@@ -3,10 +3,12 @@
 package bag
 
 import (
+	"io"
 	"time"
 
 	"github.com/ohler55/ojg"
 	"github.com/ohler55/ojg/alt"
+	"github.com/ohler55/ojg/sen"
 	"github.com/ohler55/slip"
 )
 
@@ -62,6 +64,21 @@ the _*bag-time_wrap*_ value and the time encoded according to the _*bag-time-for
 	Pkg.Initialize(nil, &Get{}) // lock it down
 	slip.AddPackage(&Pkg)
 	slip.UserPkg.Use(&Pkg)
+}
+
+// mustParse parses SEN or JSON with a parser of its own. The parsers of the
+// sen package level functions come from a pool and keep some of their state
+// (a pending string concatenation) when a parse fails, which then breaks
+// the next, unrelated parse.
+func mustParse(buf []byte, args ...any) any {
+	var p sen.Parser
+	return p.MustParse(buf, args...)
+}
+
+// mustParseReader is mustParse for a reader.
+func mustParseReader(r io.Reader, args ...any) any {
+	var p sen.Parser
+	return p.MustParseReader(r, args...)
 }
 
 func getTimeFormat() slip.Object {
